@@ -53,6 +53,19 @@ func main() {
 			os.Exit(2)
 		}
 		os.Exit(replay(*modeld, *tables, fs.Arg(0)))
+	case "confirm":
+		// drive confirm <case.json>: run the implementation calls of ONE case in a fresh process (used by the watchdog to
+		// tell a real hang from a machine that is merely overloaded); exits 0 when they return
+		if len(os.Args) != 3 {
+			os.Exit(2)
+		}
+		b, err := os.ReadFile(os.Args[2])
+		var c Case
+		if err != nil || json.Unmarshal(b, &c) != nil {
+			os.Exit(2)
+		}
+		probesOf(&c)
+		os.Exit(0)
 	default:
 		fmt.Fprintln(os.Stderr, "unknown subcommand", os.Args[1])
 		os.Exit(2)
